@@ -43,13 +43,33 @@ def check(run):
             ng = rng.choice([2, 4, 8, 16, 64])
             ne = max(4, (400 if quick else 1500) // ng)
             cases.append('%s %s %d %d %s %d %d %d %d' % (rng.choice(['console', 'console', 'file', 'rolling']), rng.choice(['text', 'json']), ng, ne, capname, lo, hi, rng.choice([7, 64, 1000]), rng.choice([0, 1])))
+        # the console on a real pipe whose reader stalls (longer than any plausible write deadline) while the pipe is full: 16 goroutines, lines of 5-10 KB.
+        # What goes wrong there depends on which goroutine gets the descriptor next, so the scenario runs in several processes side by side.
+        pipe_cases = ['pipe %s 16 %d 10KB %d %d 100000 0' % (rng.choice(['text', 'json']), ne_, lo_, hi_)
+                      for (ne_, lo_, hi_) in [(24, 9000, 11000), (40, 4500, 5500)] * (4 if quick else 12)]
         # formatting contention: many goroutines, short lines, fast sinks - most of the time is spent formatting side by side
         for sink, lay, ng, ne in (('console', 'text', 16, 3000), ('console', 'json', 64, 800), ('console', 'text', 32, 1500), ('file', 'json', 32, 800)) if quick else \
                 [(s_, l_, g_, 40000 // g_) for s_ in ('file', 'console') for l_ in ('text', 'json') for g_ in (8, 16, 32, 64)]:
             cases.append('%s %s %d %d 10KB 0 40 100000 0' % (sink, lay, ng, ne))
         common.write_lines(tmp + '/c', cases)
+        import threading
+        pres = [None] * len(pipe_cases)
+
+        def run_pipe(k):
+            common.write_lines(tmp + '/pc%d' % k, [pipe_cases[k]])
+            r, l = common.run_impl('c03', tmp + '/pc%d' % k, tmp + '/pi%d' % k, timeout=600)
+            o = common.read_lines(tmp + '/pi%d' % k)
+            pres[k] = (r, l, o[0] if o else '')
+        threads = [threading.Thread(target=run_pipe, args=(k,)) for k in range(len(pipe_cases))]
+        for t in threads:
+            t.start()
         rc, li = common.run_impl('c03', tmp + '/c', tmp + '/i', timeout=1800)
         io = common.read_lines(tmp + '/i')
+        for t in threads:
+            t.join()
+        for k, (r, l, o) in enumerate(pres):
+            cases.append(pipe_cases[k])
+            io.append(o if r == 0 and o else 'harness-error rc=%s %s' % (r, l[-300:].replace('\n', ' ')))
         run.obligations += 1
         if rc != 0 or len(io) != len(cases):
             run.add_violation('harness-error', 'c03 rc=%s lines=%d/%d %s' % (rc, len(io), len(cases), li[-1000:]), [li[-2000:]], no_input=True)
@@ -61,7 +81,7 @@ def check(run):
             if not bad:
                 run.discharged += 1
             total = sum(int(o.split()[0]) for o in io if o.split()[0].isdigit())
-            run.stream('c03/concurrent', len(cases), len(cases), False, '2-64 goroutines x both layouts x console (slow, chunk-copying, yielding writer) / file / rolling appenders x bufferCap 1K/4K/10K x line sizes below, every event stamped (TimeNow hook) with its own second, millisecond and zone, plus high-contention runs (16-64 goroutines, short lines, fast sinks), '
+            run.stream('c03/concurrent', len(cases), len(cases), False, '2-64 goroutines x both layouts x console (slow, chunk-copying, yielding writer; a real pipe whose reader stalls three times for 2.2 s with the pipe full) / file / rolling appenders x bufferCap 1K/4K/10K x line sizes below, every event stamped (TimeNow hook) with its own second, millisecond and zone, plus high-contention runs (16-64 goroutines, short lines, fast sinks), '
                        'in the upper half of, around and beyond the cap; with and without a context-fields hook that hands every call the same slice (spare capacity); oracle: multiset of whole lines in the sink = multiset of events formatted alone, one Write per event (%d events in total)' % total)
             run.coverage['samples'].append({'stream': 'c03/concurrent', 'case': cases[0], 'observation': io[0][:200]})
         # (iii) thorough: the same runs under the race detector (a data race on a pooled buffer is reported even when the bytes happen to agree)
